@@ -762,6 +762,9 @@ func (p *Parser) parseInfixExp(left ast.Expression) ast.Expression {
 		Left:     left,
 	}
 
+	// operators of equal precedence group left to right
+	precedence := precedences[p.curToken.Type]
+
 	p.nextToken() // skip operator
 
 	if p.curTokenIs(token.RBRACES) {
@@ -769,7 +772,7 @@ func (p *Parser) parseInfixExp(left ast.Expression) ast.Expression {
 		return nil
 	}
 
-	exp.Right = p.parseExpression(SUM)
+	exp.Right = p.parseExpression(precedence)
 
 	return exp
 }
